@@ -148,7 +148,7 @@ fn digest_wire(w: &[u8]) -> String {
 /// Mode S: a full server; the client writes the script in the pieces given by the schedule
 /// (piece lengths separated by ','; 0 = one write of everything), pausing `pause_ms` between
 /// pieces, then half-closes and reads to EOF.
-fn server(toks: &[&str]) -> String {
+fn server(toks: &[&str], idle: bool) -> String {
     let small: usize = toks[0].parse().unwrap();
     let tmp = temp_dir::TempDir::new().unwrap();
     let cache = cache_dir(toks[1], &tmp);
@@ -180,8 +180,31 @@ fn server(toks: &[&str]) -> String {
             std::thread::sleep(std::time::Duration::from_millis(pause_ms));
         }
     }
+    // mode I: the client keeps the connection open and idles after it has received the answers;
+    // an upload's temp file must be gone by the time its request has been answered, not only
+    // when the connection ends or the next request arrives
+    let mut wire = Vec::new();
+    let mut idle_files = 0;
+    if idle {
+        client.set_read_timeout(Some(std::time::Duration::from_millis(400))).unwrap();
+        let mut buf = [0u8; 65536];
+        loop {
+            match client.read(&mut buf) {
+                Ok(0) => break,
+                Ok(n) => wire.extend_from_slice(&buf[..n]),
+                Err(_) => break, // quiet for 400 ms: every answer has arrived
+            }
+        }
+        for _ in 0..150 {
+            idle_files = std::fs::read_dir(tmp.path()).unwrap().count();
+            if idle_files == 0 {
+                break;
+            }
+            std::thread::sleep(std::time::Duration::from_millis(10));
+        }
+    }
     let _ = client.shutdown(std::net::Shutdown::Write);
-    let wire = read_all(&mut client);
+    wire.extend_from_slice(&read_all(&mut client));
     drop(permit);
     let _ = stopped.recv_timeout(std::time::Duration::from_secs(5));
     // give dropped requests a moment to delete their temp files
@@ -194,7 +217,11 @@ fn server(toks: &[&str]) -> String {
         std::thread::sleep(std::time::Duration::from_millis(10));
     }
     let log = log.lock().unwrap().join(",");
-    format!("log=[{log}] wire={} files={files}", digest_wire(&wire))
+    if idle {
+        format!("log=[{log}] wire={} files={files} idle={idle_files}", digest_wire(&wire))
+    } else {
+        format!("log=[{log}] wire={} files={files}", digest_wire(&wire))
+    }
 }
 
 fn tables() -> String {
@@ -210,7 +237,8 @@ fn main() {
     run_lines_marked(|toks| match toks[0] {
         "tables" => tables(),
         "D" => direct(&toks[1..]),
-        "S" => server(&toks[1..]),
+        "S" => server(&toks[1..], false),
+        "I" => server(&toks[1..], true),
         _ => "?".to_string(),
     });
 }
